@@ -674,6 +674,278 @@ theorem all_listings_page_len (sk : Cw1Subkeys.State) (fx : Cw3Fixed.State) (fl 
    (group_listMembers_page_len g cg limit).1, (stake_listMembers_page_len st c4 limit).1,
    (ics20_listAllowed_page_len ic ci limit).1, effLimit_le_max limit, effLimit_none⟩
 
+/-! ## Every cursor: the 13 listings started from an arbitrary `start_after` / `start_before`
+
+The `*_complete` theorems above start the client loop without cursor.  Below, for each of the 13 listings, the
+loop is started at an **arbitrary** cursor `c` (a key taken from an earlier page, a key removed since, or any other
+value; for the listings that validate the cursor the client passes it as an address that validates): it returns
+exactly the current items strictly beyond `c`, in key order, each once — the sorted entries filtered by
+`key > c` (`key < c` for `ReverseProposals`).  Instances of `C20.listing_complete_after(_desc/_filtered)`;
+`C20.listing_split_at_cursor` says that these items together with the items up to `c` are the whole listing. -/
+
+theorem group_listMembers_loop_after {s : Cw4Group.State} (hs : AMap.NodupKeys s.members.cur) (limit : Option Nat)
+    (hl : limit ≠ some 0) (c : String) {fuel : Nat} (hf : s.members.cur.length + 1 ≤ fuel) :
+    fetchLoop (fun c => okItems (Cw4Group.queryListMembers s (c.map (⟨true, ·⟩)) limit)) (·.1) (some c) fuel
+      = (sortedEntries strLt s.members.cur).filter (fun x => strLt c x.1) :=
+  listing_complete_after_id strictTotal_strLt hs hl
+    (fun c => by cases c <;> simp [group_listMembers_eq]) c hf
+
+/-- cw4-group `ListMembers` from any cursor, every reachable state. -/
+theorem group_listMembers_complete_after {m : Cw4Group.InstMsg} {h0 : Nat} {s0 : Cw4Group.State}
+    (hi : Cw4Group.instantiate m h0 = .ok s0) (ops : List Cw4Group.Op) (limit : Option Nat) (hl : limit ≠ some 0)
+    (c : String) {fuel : Nat} (hf : (Cw4Group.run s0 ops).members.cur.length + 1 ≤ fuel) :
+    fetchLoop (fun c => okItems (Cw4Group.queryListMembers (Cw4Group.run s0 ops) (c.map (⟨true, ·⟩)) limit))
+        (·.1) (some c) fuel
+      = (sortedEntries strLt (Cw4Group.run s0 ops).members.cur).filter (fun x => strLt c x.1) :=
+  group_listMembers_loop_after (Cw4Group.run_nodup ops (Cw4Group.instantiate_nodup hi)) limit hl c hf
+
+theorem stake_listMembers_loop_after {s : Cw4Stake.State} (hs : AMap.NodupKeys s.members.cur) (limit : Option Nat)
+    (hl : limit ≠ some 0) (c : String) {fuel : Nat} (hf : s.members.cur.length + 1 ≤ fuel) :
+    fetchLoop (fun c => okItems (Cw4Stake.queryListMembers s (c.map (⟨true, ·⟩)) limit)) (·.1) (some c) fuel
+      = (sortedEntries strLt s.members.cur).filter (fun x => strLt c x.1) :=
+  listing_complete_after_id strictTotal_strLt hs hl
+    (fun c => by cases c <;> simp [stake_listMembers_eq]) c hf
+
+/-- cw4-stake `ListMembers` from any cursor, every reachable world. -/
+theorem stake_listMembers_complete_after {m : Cw4Stake.InstMsg} {s0 : Cw4Stake.State}
+    (hi : Cw4Stake.instantiate m = .ok s0) (bal : AMap Addr Nat) (accepting : List Addr)
+    (ops : List (Block × Cw4Stake.Op)) (limit : Option Nat) (hl : limit ≠ some 0) (c : String) {fuel : Nat}
+    (hf : (Cw4Stake.run (Cw4Stake.World.init s0 bal accepting) ops).st.members.cur.length + 1 ≤ fuel) :
+    fetchLoop (fun c => okItems (Cw4Stake.queryListMembers
+        (Cw4Stake.run (Cw4Stake.World.init s0 bal accepting) ops).st (c.map (⟨true, ·⟩)) limit)) (·.1) (some c) fuel
+      = (sortedEntries strLt (Cw4Stake.run (Cw4Stake.World.init s0 bal accepting) ops).st.members.cur).filter
+          (fun x => strLt c x.1) :=
+  stake_listMembers_loop_after
+    (Cw4Stake.run_nodup (w := Cw4Stake.World.init s0 bal accepting) (Cw4Stake.instantiate_nodup hi) ops) limit hl c hf
+
+theorem subkeys_allAllowances_loop_after {s : Cw1Subkeys.State} (hs : AMap.NodupKeys s.allowances) (blk : Block)
+    (limit : Option Nat) (hl : limit ≠ some 0) (c : String) {fuel : Nat} (hf : s.allowances.length + 1 ≤ fuel) :
+    fetchLoop (fun c => Cw1Subkeys.queryAllAllowances s blk c limit) (·.1) (some c) fuel
+      = ((sortedEntries strLt s.allowances).filter (live blk)).filter (fun x => strLt c x.1) :=
+  listing_complete_filtered_after_id strictTotal_strLt hs (live blk) hl
+    (fun c => subkeys_allAllowances_eq s blk c limit) c hf
+
+/-- cw1-subkeys `AllAllowances` from any cursor, every reachable state: the unexpired allowances beyond `c`. -/
+theorem subkeys_allAllowances_complete_after {m : Cw1Subkeys.InstMsg} {s0 : Cw1Subkeys.State}
+    (hi : Cw1Subkeys.instantiate m = .ok s0) (ops : List (Block × Addr × Cw1Subkeys.Msg)) (blk : Block)
+    (limit : Option Nat) (hl : limit ≠ some 0) (c : String) {fuel : Nat}
+    (hf : (subkeysRun s0 ops).allowances.length + 1 ≤ fuel) :
+    fetchLoop (fun c => Cw1Subkeys.queryAllAllowances (subkeysRun s0 ops) blk c limit) (·.1) (some c) fuel
+      = ((sortedEntries strLt (subkeysRun s0 ops).allowances).filter (live blk)).filter (fun x => strLt c x.1) :=
+  subkeys_allAllowances_loop_after (Cw1Subkeys.run_nodup ops (Cw1Subkeys.instantiate_nodup hi)).allowances blk limit hl c hf
+
+theorem subkeys_allPermissions_loop_after {s : Cw1Subkeys.State} (hs : AMap.NodupKeys s.permissions)
+    (limit : Option Nat) (hl : limit ≠ some 0) (c : String) {fuel : Nat} (hf : s.permissions.length + 1 ≤ fuel) :
+    fetchLoop (fun c => Cw1Subkeys.queryAllPermissions s c limit) (·.1) (some c) fuel
+      = (sortedEntries strLt s.permissions).filter (fun x => strLt c x.1) :=
+  listing_complete_after_id strictTotal_strLt hs hl (fun _ => rfl) c hf
+
+/-- cw1-subkeys `AllPermissions` from any cursor, every reachable state. -/
+theorem subkeys_allPermissions_complete_after {m : Cw1Subkeys.InstMsg} {s0 : Cw1Subkeys.State}
+    (hi : Cw1Subkeys.instantiate m = .ok s0) (ops : List (Block × Addr × Cw1Subkeys.Msg))
+    (limit : Option Nat) (hl : limit ≠ some 0) (c : String) {fuel : Nat}
+    (hf : (subkeysRun s0 ops).permissions.length + 1 ≤ fuel) :
+    fetchLoop (fun c => Cw1Subkeys.queryAllPermissions (subkeysRun s0 ops) c limit) (·.1) (some c) fuel
+      = (sortedEntries strLt (subkeysRun s0 ops).permissions).filter (fun x => strLt c x.1) :=
+  subkeys_allPermissions_loop_after (Cw1Subkeys.run_nodup ops (Cw1Subkeys.instantiate_nodup hi)).permissions limit hl c hf
+
+theorem ics20_listAllowed_loop_after {s : Ics20.State} (hs : AMap.NodupKeys s.allow) (limit : Option Nat)
+    (hl : limit ≠ some 0) (c : String) {fuel : Nat} (hf : s.allow.length + 1 ≤ fuel) :
+    fetchLoop (fun c => okItems (Ics20.queryListAllowed s (c.map (⟨true, ·⟩)) limit)) (·.1) (some c) fuel
+      = (sortedEntries strLt s.allow).filter (fun x => strLt c x.1) :=
+  listing_complete_after_id strictTotal_strLt hs hl
+    (fun c => by cases c <;> simp [ics20_listAllowed_eq]) c hf
+
+/-- cw20-ics20 `ListAllowed` from any cursor, every reachable world. -/
+theorem ics20_listAllowed_complete_after {m : Ics20.InstMsg} {w0 : Ics20.World} (hi : Ics20.instantiate m = .ok w0.st)
+    (ops : List (Block × Ics20.Op)) (limit : Option Nat) (hl : limit ≠ some 0) (c : String) {fuel : Nat}
+    (hf : (ics20Run w0 ops).st.allow.length + 1 ≤ fuel) :
+    fetchLoop (fun c => okItems (Ics20.queryListAllowed (ics20Run w0 ops).st (c.map (⟨true, ·⟩)) limit)) (·.1)
+        (some c) fuel
+      = (sortedEntries strLt (ics20Run w0 ops).st.allow).filter (fun x => strLt c x.1) :=
+  ics20_listAllowed_loop_after (Ics20.run_nodup ops (Ics20.instantiate_nodup hi)) limit hl c hf
+
+/-- `ListProposals` from any `start_after = cur` (state level): the views of the stored proposals with id above
+`cur`, ascending. -/
+theorem core_listProposals_loop_after {c : Cw3Core.Core} {blk : Block} (hn : AMap.NodupKeys c.proposals)
+    (hv : StatusTotal c blk) (limit : Option Nat) (hl : limit ≠ some 0) (cur : Nat) {fuel : Nat}
+    (hf : c.proposals.length + 1 ≤ fuel) :
+    Cw3Core.viewAll blk ((sortedEntries natLt c.proposals).filter (fun x => natLt cur x.1))
+      = .ok (fetchLoop (fun cur => okItems (Cw3Core.listProposals c blk cur limit)) (·.id) (some cur) fuel) := by
+  rw [listing_complete_after strictTotal_natLt hn hl (f := Cw3Core.viewD blk) (key := (·.id))
+    (fun cur => by rw [core_listProposals_eq hn hv]; rfl) (fun _ => rfl) cur hf]
+  exact Cw3Core.viewAll_eq_map fun _ hx =>
+    statusTotal_of_mem hn hv (mem_sortedEntries.mp (List.mem_filter.mp hx).1)
+
+/-- `ReverseProposals` from any `start_before = cur` (state level): the views of the stored proposals with id
+below `cur`, descending. -/
+theorem core_reverseProposals_loop_after {c : Cw3Core.Core} {blk : Block} (hn : AMap.NodupKeys c.proposals)
+    (hv : StatusTotal c blk) (limit : Option Nat) (hl : limit ≠ some 0) (cur : Nat) {fuel : Nat}
+    (hf : c.proposals.length + 1 ≤ fuel) :
+    Cw3Core.viewAll blk ((sortedEntries natLt c.proposals).reverse.filter (fun x => natLt x.1 cur))
+      = .ok (fetchLoop (fun cur => okItems (Cw3Core.reverseProposals c blk cur limit)) (·.id) (some cur) fuel) := by
+  rw [listing_complete_desc_after strictTotal_natLt hn hl (f := Cw3Core.viewD blk) (key := (·.id))
+    (q := fun cur => okItems (Cw3Core.reverseProposals c blk cur limit))
+    (fun cur => by rw [core_reverseProposals_eq hn hv]; rfl) (fun _ => rfl) cur hf]
+  exact Cw3Core.viewAll_eq_map fun _ hx =>
+    statusTotal_of_mem hn hv (mem_sortedEntries.mp (List.mem_reverse.mp (List.mem_filter.mp hx).1))
+
+/-- `ListVotes` of one proposal from any raw cursor (state level). -/
+theorem core_listVotes_loop_after {c : Cw3Core.Core} (hw : Cw3Core.WF c) (id : Nat) (limit : Option Nat)
+    (hl : limit ≠ some 0) (cur : String) {fuel : Nat} (hf : (Cw3Core.ballotsOf c id).length + 1 ≤ fuel) :
+    fetchLoop (fun cur => Cw3Core.listVotes c id cur limit) (·.1) (some cur) fuel
+      = (sortedEntries strLt (Cw3Core.ballotsOf c id)).filter (fun x => strLt cur x.1) :=
+  listing_complete_after_id strictTotal_strLt (hw.nodup id) hl (fun _ => rfl) cur hf
+
+/-- cw3-fixed `ListProposals` from any cursor, every reachable world, every query block. -/
+theorem fixed_listProposals_complete_after {fuel : Nat} {w : Cw3Fixed.World} (hr : Cw3Fixed.Reachable fuel w)
+    (blk : Block) (limit : Option Nat) (hl : limit ≠ some 0) (cur : Nat) {n : Nat}
+    (hf : w.ms.core.proposals.length + 1 ≤ n) :
+    Cw3Core.viewAll blk ((sortedEntries natLt w.ms.core.proposals).filter (fun x => natLt cur x.1))
+      = .ok (fetchLoop (fun cur => okItems (Cw3Fixed.listProposals w.ms blk cur limit)) (·.id) (some cur) n) :=
+  core_listProposals_loop_after (Cw3Fixed.reachable_nodup hr) (fixed_status_total hr blk) limit hl cur hf
+
+/-- cw3-fixed `ReverseProposals` from any `start_before`, every reachable world. -/
+theorem fixed_reverseProposals_complete_after {fuel : Nat} {w : Cw3Fixed.World} (hr : Cw3Fixed.Reachable fuel w)
+    (blk : Block) (limit : Option Nat) (hl : limit ≠ some 0) (cur : Nat) {n : Nat}
+    (hf : w.ms.core.proposals.length + 1 ≤ n) :
+    Cw3Core.viewAll blk ((sortedEntries natLt w.ms.core.proposals).reverse.filter (fun x => natLt x.1 cur))
+      = .ok (fetchLoop (fun cur => okItems (Cw3Fixed.reverseProposals w.ms blk cur limit)) (·.id) (some cur) n) :=
+  core_reverseProposals_loop_after (Cw3Fixed.reachable_nodup hr) (fixed_status_total hr blk) limit hl cur hf
+
+/-- cw3-fixed `ListVotes` from any raw cursor, every reachable world, every proposal id. -/
+theorem fixed_listVotes_complete_after {fuel : Nat} {w : Cw3Fixed.World} (hr : Cw3Fixed.Reachable fuel w) (id : Nat)
+    (limit : Option Nat) (hl : limit ≠ some 0) (cur : String) {n : Nat}
+    (hf : (Cw3Core.ballotsOf w.ms.core id).length + 1 ≤ n) :
+    fetchLoop (fun cur => Cw3Fixed.listVotes w.ms id cur limit) (·.1) (some cur) n
+      = (sortedEntries strLt (Cw3Core.ballotsOf w.ms.core id)).filter (fun x => strLt cur x.1) :=
+  core_listVotes_loop_after (Cw3Fixed.reachable_inv hr).wf id limit hl cur hf
+
+/-- cw3-fixed `ListVoters` from any raw cursor, every reachable world. -/
+theorem fixed_listVoters_complete_after {fuel : Nat} {w : Cw3Fixed.World} (hr : Cw3Fixed.Reachable fuel w)
+    (limit : Option Nat) (hl : limit ≠ some 0) (cur : String) {n : Nat} (hf : w.ms.voters.length + 1 ≤ n) :
+    fetchLoop (fun cur => Cw3Fixed.listVoters w.ms cur limit) (·.1) (some cur) n
+      = (sortedEntries strLt w.ms.voters).filter (fun x => strLt cur x.1) :=
+  listing_complete_after_id strictTotal_strLt (Cw3Fixed.reachable_inv hr).votersNodup hl (fun _ => rfl) cur hf
+
+/-- cw3-flex `ListProposals` from any cursor (same hypothesis `StatusTotal` as `flex_listProposals_complete`). -/
+theorem flex_listProposals_complete_after {ext : Cw3Flex.Ext} {fuel : Nat} {w : Cw3Flex.World}
+    (hr : Cw3Flex.Reachable ext fuel w) (blk : Block) (hv : StatusTotal w.flex.core blk)
+    (limit : Option Nat) (hl : limit ≠ some 0) (cur : Nat) {n : Nat} (hf : w.flex.core.proposals.length + 1 ≤ n) :
+    Cw3Core.viewAll blk ((sortedEntries natLt w.flex.core.proposals).filter (fun x => natLt cur x.1))
+      = .ok (fetchLoop (fun cur => okItems (Cw3Flex.listProposals w.flex blk cur limit)) (·.id) (some cur) n) :=
+  core_listProposals_loop_after (Cw3Flex.reachable_nodup hr) hv limit hl cur hf
+
+/-- cw3-flex `ReverseProposals` from any `start_before` (same hypothesis). -/
+theorem flex_reverseProposals_complete_after {ext : Cw3Flex.Ext} {fuel : Nat} {w : Cw3Flex.World}
+    (hr : Cw3Flex.Reachable ext fuel w) (blk : Block) (hv : StatusTotal w.flex.core blk)
+    (limit : Option Nat) (hl : limit ≠ some 0) (cur : Nat) {n : Nat} (hf : w.flex.core.proposals.length + 1 ≤ n) :
+    Cw3Core.viewAll blk ((sortedEntries natLt w.flex.core.proposals).reverse.filter (fun x => natLt x.1 cur))
+      = .ok (fetchLoop (fun cur => okItems (Cw3Flex.reverseProposals w.flex blk cur limit)) (·.id) (some cur) n) :=
+  core_reverseProposals_loop_after (Cw3Flex.reachable_nodup hr) hv limit hl cur hf
+
+/-- cw3-flex `ListVotes` from any (validating) cursor, every reachable world, every proposal id. -/
+theorem flex_listVotes_complete_after {ext : Cw3Flex.Ext} {fuel : Nat} {w : Cw3Flex.World}
+    (hr : Cw3Flex.Reachable ext fuel w) (id : Nat) (limit : Option Nat) (hl : limit ≠ some 0) (cur : String) {n : Nat}
+    (hf : (Cw3Core.ballotsOf w.flex.core id).length + 1 ≤ n) :
+    fetchLoop (fun cur => okItems (Cw3Flex.listVotes w.flex id (cur.map (⟨true, ·⟩)) limit)) (·.1) (some cur) n
+      = (sortedEntries strLt (Cw3Core.ballotsOf w.flex.core id)).filter (fun x => strLt cur x.1) :=
+  listing_complete_after_id strictTotal_strLt ((Cw3Flex.reachable_inv hr).wf.nodup id) hl
+    (fun c => by cases c <;> simp [flex_listVotes_eq]) cur hf
+
+/-- cw3-flex `ListVoters` from any (validating) cursor, in the worlds of `flex_listVoters_complete`. -/
+theorem flex_listVoters_complete_after {gm : Cw4Group.InstMsg} {h0 : Nat} {g0 : Cw4Group.State}
+    (hg : Cw4Group.instantiate gm h0 = .ok g0) (gops : List Cw4Group.Op) (s : Cw3Flex.State) (t : Cw20.State)
+    (bank : AMap (Addr × String) Nat) (self groupAddr tokenAddr : Addr) (hh : Nat) (ext : Cw3Flex.Ext) (fuel : Nat)
+    (ops : List Cw3Flex.Op) (limit : Option Nat) (hl : limit ≠ some 0) (cur : String) {n : Nat}
+    (hf : (Cw3Flex.run ext fuel (Cw3Flex.World.init s (Cw4Group.run g0 gops) t bank self groupAddr tokenAddr hh)
+      ops).group.members.cur.length + 1 ≤ n) :
+    fetchLoop (fun cur => okItems (Cw3Flex.listVoters
+        (Cw3Flex.run ext fuel (Cw3Flex.World.init s (Cw4Group.run g0 gops) t bank self groupAddr tokenAddr hh) ops).group
+        (cur.map (⟨true, ·⟩)) limit)) (·.1) (some cur) n
+      = (sortedEntries strLt
+        (Cw3Flex.run ext fuel (Cw3Flex.World.init s (Cw4Group.run g0 gops) t bank self groupAddr tokenAddr hh)
+          ops).group.members.cur).filter (fun x => strLt cur x.1) :=
+  group_listMembers_loop_after
+    (Cw3Flex.run_group_nodup ext fuel ops _ (Cw4Group.run_nodup gops (Cw4Group.instantiate_nodup hg))) limit hl cur hf
+
+/-- **C20 "every cursor", the 13 listings outside cw20-base together.**  Same reachable states and hypotheses
+as `all_listings_complete`; in addition an arbitrary string cursor `cs` (for the address-keyed listings) and an
+arbitrary numeric cursor `cn` (for the proposal listings).  For every listing the client loop *started at that
+cursor* returns exactly the current items strictly beyond it, in key order, each once. -/
+theorem all_listings_complete_after
+    {skm : Cw1Subkeys.InstMsg} {sk0 : Cw1Subkeys.State} (hsk : Cw1Subkeys.instantiate skm = .ok sk0)
+    (skops : List (Block × Addr × Cw1Subkeys.Msg))
+    {xfuel : Nat} {wx : Cw3Fixed.World} (hfx : Cw3Fixed.Reachable xfuel wx)
+    {gm : Cw4Group.InstMsg} {h0 : Nat} {g0 : Cw4Group.State} (hg : Cw4Group.instantiate gm h0 = .ok g0)
+    (gops : List Cw4Group.Op)
+    {fm : Cw3Flex.InstMsg} {fs : Cw3Flex.State} (hfi : Cw3Flex.instantiate fm (some (Cw4Group.run g0 gops)) = .ok fs)
+    (t : Cw20.State) (bank : AMap (Addr × String) Nat) (self groupAddr tokenAddr : Addr) (hh : Nat)
+    (ext : Cw3Flex.Ext) (ffuel : Nat) (fops : List Cw3Flex.Op)
+    {sm : Cw4Stake.InstMsg} {ss0 : Cw4Stake.State} (hst : Cw4Stake.instantiate sm = .ok ss0)
+    (bal : AMap Addr Nat) (accepting : List Addr) (sops : List (Block × Cw4Stake.Op))
+    {im : Ics20.InstMsg} {iw0 : Ics20.World} (hic : Ics20.instantiate im = .ok iw0.st) (iops : List (Block × Ics20.Op))
+    (blk : Block) (id : Nat) (limit : Option Nat) (hl : limit ≠ some 0) (cs : String) (cn : Nat)
+    (hv : StatusTotal (Cw3Flex.run ext ffuel
+      (Cw3Flex.World.init fs (Cw4Group.run g0 gops) t bank self groupAddr tokenAddr hh) fops).flex.core blk) :
+    let sk := subkeysRun sk0 skops
+    let g := Cw4Group.run g0 gops
+    let wf := Cw3Flex.run ext ffuel (Cw3Flex.World.init fs g t bank self groupAddr tokenAddr hh) fops
+    let ws := Cw4Stake.run (Cw4Stake.World.init ss0 bal accepting) sops
+    let wi := ics20Run iw0 iops
+    let above : {ν : Type} → Addr × ν → Bool := fun x => strLt cs x.1
+    (fetchLoop (fun c => Cw1Subkeys.queryAllAllowances sk blk c limit) (·.1) (some cs) (sk.allowances.length + 1)
+        = ((sortedEntries strLt sk.allowances).filter (live blk)).filter above) ∧
+    (fetchLoop (fun c => Cw1Subkeys.queryAllPermissions sk c limit) (·.1) (some cs) (sk.permissions.length + 1)
+        = (sortedEntries strLt sk.permissions).filter above) ∧
+    (Cw3Core.viewAll blk ((sortedEntries natLt wx.ms.core.proposals).filter (fun x => natLt cn x.1))
+        = .ok (fetchLoop (fun c => okItems (Cw3Fixed.listProposals wx.ms blk c limit)) (·.id) (some cn)
+            (wx.ms.core.proposals.length + 1))) ∧
+    (Cw3Core.viewAll blk ((sortedEntries natLt wx.ms.core.proposals).reverse.filter (fun x => natLt x.1 cn))
+        = .ok (fetchLoop (fun c => okItems (Cw3Fixed.reverseProposals wx.ms blk c limit)) (·.id) (some cn)
+            (wx.ms.core.proposals.length + 1))) ∧
+    (fetchLoop (fun c => Cw3Fixed.listVotes wx.ms id c limit) (·.1) (some cs) ((Cw3Core.ballotsOf wx.ms.core id).length + 1)
+        = (sortedEntries strLt (Cw3Core.ballotsOf wx.ms.core id)).filter above) ∧
+    (fetchLoop (fun c => Cw3Fixed.listVoters wx.ms c limit) (·.1) (some cs) (wx.ms.voters.length + 1)
+        = (sortedEntries strLt wx.ms.voters).filter above) ∧
+    (Cw3Core.viewAll blk ((sortedEntries natLt wf.flex.core.proposals).filter (fun x => natLt cn x.1))
+        = .ok (fetchLoop (fun c => okItems (Cw3Flex.listProposals wf.flex blk c limit)) (·.id) (some cn)
+            (wf.flex.core.proposals.length + 1))) ∧
+    (Cw3Core.viewAll blk ((sortedEntries natLt wf.flex.core.proposals).reverse.filter (fun x => natLt x.1 cn))
+        = .ok (fetchLoop (fun c => okItems (Cw3Flex.reverseProposals wf.flex blk c limit)) (·.id) (some cn)
+            (wf.flex.core.proposals.length + 1))) ∧
+    (fetchLoop (fun c => okItems (Cw3Flex.listVotes wf.flex id (c.map (⟨true, ·⟩)) limit)) (·.1) (some cs)
+          ((Cw3Core.ballotsOf wf.flex.core id).length + 1)
+        = (sortedEntries strLt (Cw3Core.ballotsOf wf.flex.core id)).filter above) ∧
+    (fetchLoop (fun c => okItems (Cw3Flex.listVoters wf.group (c.map (⟨true, ·⟩)) limit)) (·.1) (some cs)
+          (wf.group.members.cur.length + 1)
+        = (sortedEntries strLt wf.group.members.cur).filter above) ∧
+    (fetchLoop (fun c => okItems (Cw4Group.queryListMembers g (c.map (⟨true, ·⟩)) limit)) (·.1) (some cs)
+          (g.members.cur.length + 1)
+        = (sortedEntries strLt g.members.cur).filter above) ∧
+    (fetchLoop (fun c => okItems (Cw4Stake.queryListMembers ws.st (c.map (⟨true, ·⟩)) limit)) (·.1) (some cs)
+          (ws.st.members.cur.length + 1)
+        = (sortedEntries strLt ws.st.members.cur).filter above) ∧
+    (fetchLoop (fun c => okItems (Ics20.queryListAllowed wi.st (c.map (⟨true, ·⟩)) limit)) (·.1) (some cs)
+          (wi.st.allow.length + 1)
+        = (sortedEntries strLt wi.st.allow).filter above) := by
+  intro sk g wf ws wi above
+  have hrf : Cw3Flex.Reachable ext ffuel wf :=
+    ⟨fm, fs, g, t, bank, self, groupAddr, tokenAddr, hh, fops, hfi, rfl⟩
+  exact ⟨subkeys_allAllowances_complete_after hsk skops blk limit hl cs (Nat.le_refl _),
+    subkeys_allPermissions_complete_after hsk skops limit hl cs (Nat.le_refl _),
+    fixed_listProposals_complete_after hfx blk limit hl cn (Nat.le_refl _),
+    fixed_reverseProposals_complete_after hfx blk limit hl cn (Nat.le_refl _),
+    fixed_listVotes_complete_after hfx id limit hl cs (Nat.le_refl _),
+    fixed_listVoters_complete_after hfx limit hl cs (Nat.le_refl _),
+    flex_listProposals_complete_after hrf blk hv limit hl cn (Nat.le_refl _),
+    flex_reverseProposals_complete_after hrf blk hv limit hl cn (Nat.le_refl _),
+    flex_listVotes_complete_after hrf id limit hl cs (Nat.le_refl _),
+    flex_listVoters_complete_after hg gops fs t bank self groupAddr tokenAddr hh ext ffuel fops limit hl cs (Nat.le_refl _),
+    group_listMembers_complete_after hg gops limit hl cs (Nat.le_refl _),
+    stake_listMembers_complete_after hst bal accepting sops limit hl cs (Nat.le_refl _),
+    ics20_listAllowed_complete_after hic iops limit hl cs (Nat.le_refl _)⟩
+
 /-! ## Non-vacuity: a concrete state per contract where the hypotheses hold, with concrete pages -/
 
 /-- The sorted listing of a concrete map, from any sorted permutation of it (`mergeSort` does not reduce
@@ -825,5 +1097,34 @@ example : (Cw3Core.listProposals cBad ⟨7, 0⟩ none none).isOk = false := by
   have h : sortedEntries natLt cBad.proposals = cBad.proposals :=
     sortedEntries_of_sorted strictTotal_natLt (by unfold Sorted; decide)
   simp only [Cw3Core.listProposals, h]; decide
+
+
+/-! ### Non-vacuity of the any-cursor theorems: loops started in the middle, at a key and between keys -/
+
+example : fetchLoop (fun c => okItems (Cw4Group.queryListMembers gEx (c.map (⟨true, ·⟩)) (some 1))) (·.1) (some "a") 4
+    = [("b", 2), ("c", 3)] := by
+  rw [group_listMembers_loop_after gEx_nodup (some 1) (by decide) "a" (by decide), gEx_sorted]; decide
+example : fetchLoop (fun c => okItems (Cw4Stake.queryListMembers stEx (c.map (⟨true, ·⟩)) none)) (·.1) (some "aa") 4
+    = [("b", 2), ("c", 3)] := by
+  rw [stake_listMembers_loop_after stEx_nodup none (by decide) "aa" (by decide), stEx_sorted]; decide
+/-- filtered listing from the cursor "a" at height 10: the expired `b` is skipped, `c` remains -/
+example : fetchLoop (fun c => Cw1Subkeys.queryAllAllowances skEx ⟨10, 0⟩ c (some 1)) (·.1) (some "a") 4
+    = [("c", ⟨[("ua", 3)], .never⟩)] := by
+  rw [subkeys_allAllowances_loop_after skEx_nodup.allowances ⟨10, 0⟩ (some 1) (by decide) "a" (by decide), skEx_sorted]
+  decide
+example : fetchLoop (fun c => okItems (Ics20.queryListAllowed icEx (c.map (⟨true, ·⟩)) (some 1))) (·.1) (some "toka") 3
+    = [("tokb", some 5)] := by
+  rw [ics20_listAllowed_loop_after icEx_nodup (some 1) (by decide) "toka" (by decide), icEx_sorted]; decide
+/-- proposals: ascending from id 1, descending from `start_before = 2` -/
+example : fetchLoop (fun c => okItems (Cw3Core.listProposals cEx ⟨7, 0⟩ c (some 1))) (·.id) (some 1) 3
+    = [Cw3Core.viewD ⟨7, 0⟩ (2, prEx .rejected)] := by
+  have h := core_listProposals_loop_after cEx_nodup (cEx_status ⟨7, 0⟩) (some 1) (by decide) 1 (fuel := 3) (by decide)
+  rw [cEx_sorted] at h
+  exact (Except.ok.inj h).symm
+example : fetchLoop (fun c => okItems (Cw3Core.reverseProposals cEx ⟨7, 0⟩ c (some 1))) (·.id) (some 2) 3
+    = [Cw3Core.viewD ⟨7, 0⟩ (1, prEx .executed)] := by
+  have h := core_reverseProposals_loop_after cEx_nodup (cEx_status ⟨7, 0⟩) (some 1) (by decide) 2 (fuel := 3) (by decide)
+  rw [cEx_sorted] at h
+  exact (Except.ok.inj h).symm
 
 end CwPlus.Props.C20Listings
